@@ -48,3 +48,4 @@ CONSTANTS
  SendWhileDisc = FALSE
  PeerWhileDisc = TRUE
  LateFrames = FALSE
+ CrossVersion = FALSE
